@@ -30,6 +30,10 @@ class K:
         if key not in _MEMO:
             _MEMO[key] = pts.sum() + self.z
         return _MEMO[key]
+from functools import lru_cache
+@lru_cache(maxsize=4)
+def read_table(path):
+    return np.load(path)
 '''
 
 
@@ -67,6 +71,22 @@ def analyse_tree(tree: ast.Module, relpath: str):
     stores = []
     problems = []
     funcs = [n for n in ast.walk(tree) if isinstance(n, (ast.FunctionDef, ast.AsyncFunctionDef))]
+    # decorator memos: functools.lru_cache / cache around a function whose result depends on something that is not an argument VALUE
+    dec_stores = []
+    READERS = ("load", "load_npz", "loadtxt", "genfromtxt", "read_csv", "read_table", "open", "Universe", "read", "read_text", "fromfile")
+    for fn in funcs:
+        decs = [src(d.func) if isinstance(d, ast.Call) else src(d) for d in fn.decorator_list]
+        if not any(d.split(".")[-1] in ("lru_cache", "cache", "memoize", "cached") for d in decs):
+            continue
+        dec_stores.append((fn, fn))
+        reads = [c for c in ast.walk(fn) if isinstance(c, ast.Call) and src(c.func).split(".")[-1] in READERS]
+        if reads:
+            problems.append(("stale", f"{relpath}:{fn.name}", reads[0], f"`{fn.name}` is memoised by its arguments (a path) but its result is the CONTENT "
+                             "of a file: after the file is rewritten the stale content is returned, and every caller receives the same "
+                             "mutable object"))
+        elif any(isinstance(n_, ast.Attribute) and isinstance(n_.value, ast.Name) and n_.value.id == "self" for n_ in ast.walk(fn)):
+            problems.append(("state", f"{relpath}:{fn.name}", fn.body[0], f"`{fn.name}` is memoised per argument tuple (self is hashed by identity) "
+                             "but reads object state: a later change of that state is not seen"))
     for fn in funcs:
         params = [a.arg for a in fn.args.posonlyargs + fn.args.args + fn.args.kwonlyargs if a.arg not in ("self", "cls")]
         local_defs = {}
@@ -202,14 +222,14 @@ def analyse_tree(tree: ast.Module, relpath: str):
                         if isinstance(tg, (ast.Subscript, ast.Attribute)) and isinstance(root, ast.Name) and root.id == x and m.lineno > n.lineno:
                             problems.append(("mutate", f"{relpath}:{fn.name}", m, f"the cached object `{x}` (from `{src(n.value.value)}`) is modified "
                                              f"in place (`{norm_stmt(m)[:80]}`)"))
-    return stores, problems
+    return stores + dec_stores, problems
 
 
 def check_caches(ctx, repo: Repo, pid: str, module_names: List[str]):
     # positive control
     ctl_stores, ctl_problems = analyse_tree(ast.parse(CONTROL), "<control>")
     kinds = {p[0] for p in ctl_problems}
-    if not ({"key", "lossy", "mutate"} <= kinds) or len(ctl_stores) < 2:
+    if not ({"key", "lossy", "mutate", "stale"} <= kinds) or len(ctl_stores) < 3:
         ctx.inconclusive("CACHE", f"{pid}.cache.control", "positive control of the cache rule did not match", "<control>",
                          witness=f"stores={len(ctl_stores)}, kinds={sorted(kinds)}")
         return
@@ -231,4 +251,4 @@ def check_caches(ctx, repo: Repo, pid: str, module_names: List[str]):
                         "the calls made before it", where, norm_stmt(node)[:200], witness=msg)
     if bad == 0:
         ctx.ok("CACHE", f"{pid}.cache", f"{total} memo store(s) in {len(module_names)} anchored module(s); none with an insufficient key, a lossy "
-               "key, foreign object state or in-place mutation of the cached object (positive control matched)", ", ".join(module_names))
+               "key, foreign object state, file content behind a path key or in-place mutation of the cached object (positive control matched)", ", ".join(module_names))
